@@ -277,8 +277,8 @@ func (m *machine) splitAll(s *Term, sep string) value {
 		if !m.truth(fromTerm(mkContains(rem, mkStr(sep)))) {
 			break
 		}
-		if len(parts)+1 >= m.w.cfg.SplitMax {
-			panic(cut{fmt.Sprintf("strings.Split into more than %d parts (outside bound)", m.w.cfg.SplitMax)})
+		if len(parts)+1 >= m.splitMax {
+			panic(cut{fmt.Sprintf("strings.Split into more than %d parts (outside bound)", m.splitMax)})
 		}
 		x, y := m.splitFirst(rem, sep)
 		parts = append(parts, fromTerm(x))
